@@ -60,34 +60,63 @@ _ABSENT = object()
 
 
 def observe(d, probes) -> str:
-    lows = list(dict.fromkeys(p.lower() for p in probes))
-    gets = []
-    for k in probes:
+    """Every observation is taken on its own: an exception escaping one of them is itself an
+    observation (`EXC:<class>`), which the model never produces and the judge rejects."""
+
+    def safe(fn):
         try:
-            gets.append(f"{k}:{fv(d[k])}")
-        except KeyError:
-            gets.append(f"{k}:!")
-    getl = []
-    for lk in lows:
-        v = d.get_lower(lk, _ABSENT)  # a default that cannot be a stored value: None is a legal value
-        getl.append(f"{lk}:{'!' if v is _ABSENT else fv(v)}")
-    mem = [f"{k}:{'T' if k in d else 'F'}" for k in probes]
-    it = list(d)
-    # the inherited Mapping API (collections.abc mixins today; any override must still agree)
-    mget = []
-    for k in probes:
-        v = d.get(k, _ABSENT)
-        mget.append(f"{k}:{'!' if v is _ABSENT else fv(v)}")
-    keys = list(d.keys())
-    vals = [fv(v) for v in d.values()]
-    # membership in the views (KeysView / ItemsView go through the mapping, so any spelling must work)
-    kview, iview = d.keys(), d.items()
-    kin = [f"{k}:{'T' if k in kview else 'F'}" for k in probes]
-    iin = [f"{k}:{'T' if (k, d.get(k, _ABSENT)) in iview else 'F'}" for k in probes]
-    return (f"len={len(d)} iter={','.join(it) if it else '~'} get={','.join(gets)} getl={','.join(getl)} "
-            f"in={','.join(mem)} lower={o_pairs(d.as_lower_dict().items())} data={o_pairs(d.as_dict().items())} "
-            f"cmap={o_pairs(d.case_map().items())} mget={','.join(mget)} keys={','.join(keys) if keys else '~'} "
-            f"items={o_pairs(d.items())} values={','.join(vals) if vals else '~'} kin={','.join(kin)} iin={','.join(iin)}")
+            return fn()
+        except Exception as e:  # noqa: BLE001
+            return f"EXC:{type(e).__name__}"
+
+    lows = list(dict.fromkeys(p.lower() for p in probes))
+
+    def gets():
+        out = []
+        for k in probes:
+            try:
+                out.append(f"{k}:{fv(d[k])}")
+            except KeyError:
+                out.append(f"{k}:!")
+        return ",".join(out)
+
+    def getl():
+        out = []
+        for lk in lows:
+            v = d.get_lower(lk, _ABSENT)  # a default that cannot be a stored value: None is a legal value
+            out.append(f"{lk}:{'!' if v is _ABSENT else fv(v)}")
+        return ",".join(out)
+
+    def mget():
+        out = []
+        for k in probes:
+            v = d.get(k, _ABSENT)
+            out.append(f"{k}:{'!' if v is _ABSENT else fv(v)}")
+        return ",".join(out)
+
+    def lst(fn):
+        items = list(fn())
+        return ",".join(items) if items else "~"
+
+    fields = [
+        ("len", lambda: str(len(d))),
+        ("iter", lambda: lst(lambda: iter(d))),
+        ("get", gets),
+        ("getl", getl),
+        ("in", lambda: ",".join(f"{k}:{'T' if k in d else 'F'}" for k in probes)),
+        ("lower", lambda: o_pairs(d.as_lower_dict().items())),
+        ("data", lambda: o_pairs(d.as_dict().items())),
+        ("cmap", lambda: o_pairs(d.case_map().items())),
+        # the inherited Mapping API (collections.abc mixins today; any override must still agree)
+        ("mget", mget),
+        ("keys", lambda: lst(d.keys)),
+        ("items", lambda: o_pairs(d.items())),
+        ("values", lambda: lst(lambda: (fv(v) for v in d.values()))),
+        # membership in the views (KeysView / ItemsView go through the mapping, so any spelling must work)
+        ("kin", lambda: ",".join(f"{k}:{'T' if k in d.keys() else 'F'}" for k in probes)),
+        ("iin", lambda: ",".join(f"{k}:{'T' if (k, d.get(k, _ABSENT)) in d.items() else 'F'}" for k in probes)),
+    ]
+    return " ".join(f"{name}={safe(fn)}" for name, fn in fields)
 
 
 def run_recipe(ctx: Ctx, recipe: Dict[str, Any], cid: str) -> Case:
